@@ -1,9 +1,10 @@
 From Tetl Require Import Lib.Base C02.Model.
-From Tetl Require C08.Model C08.Core C02.ModelFp C02.ModelFf C02.ModelAlign.
+From Tetl Require C08.Model C08.Core C02.ModelFp C02.ModelFf C02.ModelAlign C02.ModelSub.
 Require Extraction.
 Require Import ExtrOcamlBasic.
 Extraction Language OCaml.
 Extraction "C02_model.ml" wire_anchor members read_poisoned default_obs default_obs_poisoned empty_state default_size all_objs
   C08.Model.mkview C08.Model.cstr_view C08.Core.vchars C02.ModelFp.tfp_scan C02.ModelFp.tfp_spec C02.ModelFp.tfp_scan_prefix
   C02.ModelFf.ffp_m C02.ModelFf.ffp_text C02.ModelFf.to_string_chars C02.ModelFf.ffp_prefix
-  C02.ModelAlign.align_obs C02.ModelAlign.align_spec C02.ModelAlign.asdef_obs C02.ModelAlign.observe C02.ModelAlign.storage_iv_no_alignas.
+  C02.ModelAlign.align_obs C02.ModelAlign.align_spec C02.ModelAlign.asdef_obs C02.ModelAlign.observe C02.ModelAlign.storage_iv_no_alignas
+  C02.ModelSub.sub_run C02.ModelSub.sub_obs C02.ModelSub.sub_spec C02.ModelSub.parent C02.ModelSub.uninit_run C02.ModelSub.uninit_spec C02.ModelSub.replay.
